@@ -34,6 +34,9 @@ T = {
  "C04": ("reference-model monitor: generated true attitude -> noise-free measurements from the estimator's own references -> real estimator -> direction table oracle",
          "Runtime monitoring: 35 estimator routes (TRIAD, Davenport, QUEST, FLAE x3, OLEQ random start and injected fixed point, SAAM, FAMC, FQA, Tilt x4, AQUA x3, ecompass x6, am2DCM, am2q, am2angles, acc2q; NED/ENU) are run on exact images of their reference directions under attitudes in general position (all routes) and Haar-generic plus 41 named special poses (singularity-free class), dips +-80 deg, scales over 5 decades; the returned rotation must map references onto measurements within 1e-9 / 1e-7 rad.",
          "NumPy; frozen direction table (validated on the pinned tree against docstrings); OLEQ random-start inexactness is a known finding, its fixed point is checked by start injection", "5/C04"),
+ "C05": ("bounded-progress monitor on recorded error trajectories of the real filters (per-configuration step bound N and tolerance from gain/geometry)",
+         "Runtime monitoring: each recursive filter configuration (Madgwick, Mahony, EKF NED/ENU, UKF, AQUA incl. adaptive, ROLEQ NED/ENU, FKF, Complementary; IMU and MARG; default and non-default gains) is started 0.01-175 deg away from a random true attitude and fed exact measurements plus gyro noise; the error trajectory (geodesic angle or tilt) must be below tol at sample N, stay below it to 1.5 N and never end above the initial error. 'Eventually' is restated as this bounded progress; verdicts are in samples, never wall-clock.",
+         "NumPy; frozen (N, tol) table with x2 / x5 margins over the calibrated envelope; direction table of vt/filt.py; UKF non-convergence is a known finding", "5/C05"),
 }
 
 def main():
